@@ -83,6 +83,9 @@ def main(tier):
     rule_profile(ck, units)
     rule_lu_order(ck, units)
     rule_narrowing(ck, units)
+    import coverage
+    cu_ = ir.run_units([dict(name='controls', src=os.path.join(ir.VERIF, 'tus', 'controls.cpp'))], 'C16c')
+    coverage.rule_cover(ck, units, control=cu_['controls'])      # a member that is only resize()d is rebuilt without a gap (QR workspace; shared by C09 / C15 / C16)
     ck.assumptions += ['exactness of LU / inverse / QR / static-matrix algebra and Cuthill-McKee being a permutation are not decided (numerical / combinatorial)']
     return ck.finish()
 
